@@ -227,10 +227,29 @@ def run_check(pid, tier, seed, procs, t0):
     # cross-check violations of contracts: on a tree where the obligations were proved this means the engine is
     # unsound; where obligations of the same FUC were refuted it is simply the concrete face of that violation
     refuted_targets = {o.get("target") for o in refuted}
+    fully_proved = set()
+    for r in results:
+        if r["status"] == "ok" and r["obligations"] and all(o["verdict"] == "proved" for o in r["obligations"]):
+            fully_proved.add(r["target"])
+    seen_x = set()
     for tgt, v in xviol:
         if tgt in refuted_targets:
             continue
-        status_err.append("CPython cross-check: real execution of %s violates proved contract clauses %s on input %s" % (tgt, v.get("failed"), json.dumps(v.get("inputs"))[:300]))
+        if tgt in fully_proved:
+            status_err.append("CPython cross-check: real execution of %s violates proved contract clauses %s on input %s" % (tgt, v.get("failed"), json.dumps(v.get("inputs"))[:300]))
+            continue
+        # the FUC could not be (fully) verified on this tree AND a real execution violates its contract:
+        # a replayed failing input on the real code is a violation in its own right
+        if tgt in seen_x:
+            continue
+        seen_x.add(tgt)
+        name = "%s/%s" % (tgt.replace("py7zr.", "", 1).replace(":", "."), (v.get("failed") or ["post"])[0])
+        rep = {"property": pid, "obligation": "%s/%s" % (pid, name), "fuc": {"target": tgt}, "solver": {"result": "not-run (function could not be verified on this tree: see evidence.undecided)"},
+               "concrete_input": v.get("inputs"), "real_run": {"interpreter": VENV_PY, "failed_clauses": v.get("failed"), "outcome": v.get("outcome"), "details": v.get("details")}, "status": "confirmed"}
+        path = os.path.join("replays", pid, slug(name) + ".json")
+        rep["rerun"] = "./check %s --replay %s" % (pid, path)
+        json.dump(rep, open(os.path.join(HERE, path), "w"), indent=1, default=str)
+        violations.append(({"name": name, "kind": "post"}, rep, path))
     # scenario results (bounded stand-ins)
     bounded = []
     for sr in scen_res:
@@ -306,6 +325,8 @@ def run_check(pid, tier, seed, procs, t0):
     print("%s [%s] %d functions under contract, %d obligations, %d discharged, %d refuted, %d undecided, %.1fs" % (pid, tier, len(fucs), n_ob, n_dis, len(refuted), len(unknown) + len(undecided), time.time() - t0))
     for ln in kf_lines:
         print(ln)
+    viol_targets = {rep.get("fuc", {}).get("target") for _, rep, _ in violations}
+    status_err = [e for e in status_err if not any(t and e.startswith(t + ":") for t in viol_targets)]
     if status_err or disagree:
         for s in status_err:
             print("CHECKER-ERROR: %s" % s[:1500])
